@@ -2,6 +2,7 @@ import PyPhysim.Proofs.C03Mu
 import PyPhysim.Proofs.C03Hist
 import PyPhysim.Proofs.C03Disc
 import PyPhysim.Proofs.C03Aux
+import PyPhysim.Proofs.C03Robust
 
 /-!
 # C03 — TDL channel output is the convolution with the impulse response it reports
@@ -768,6 +769,107 @@ theorem mu_clear_pathloss (proc : Proc α) (fftK : Fft α) (m : Mu α) :
   simp only [List.mem_map] at hl
   obtain ⟨l0, _, rfl⟩ := hl
   rfl
+
+/-! ## robustness: distinct values that are merely close (R15) -/
+
+/-- R15 (`set_pathloss`, "unchanged → skip" shortcuts): the setter takes effect for EVERY new value,
+    whatever the value stored before (there is no comparison with the old value, exact or tolerant):
+    from any state with any old path loss, `set_pathloss(s)` leads to the state with path loss `s`
+    and nothing else changed. -/
+theorem pathloss_setter_takes_effect_for_every_new_value (proc : Proc α) (fftK : Fft α) (c : Su α)
+    (old s : Option α) :
+    ({ c with pl := old } : Su α).step proc fftK (.setPathloss s) = .ok ({ c with pl := s }, .unit) := rfl
+
+/-- R15: the factor on the output AND on the reported response is exactly (the square root of) the
+    value that was set — no threshold, no "close to 0 / close to 1" fast path: a function of the exact value. -/
+theorem pathloss_is_the_exact_value (c : Su α) (s : α) (y : List (List α)) (ir : IR α) :
+    ({ c with pl := some s } : Su α).applyPl y = y.map (fun row => row.map (· * s)) ∧
+    (({ c with pl := some s } : Su α).report ir).vals = ir.vals.map (fun h r t k => s * h r t k) := ⟨rfl, rfl⟩
+
+/-- R15: over a field (ℚ(i), ℂ) two different factors — however close — are told apart by every
+    non-zero entry of the unscaled output / response -/
+theorem pathloss_close_values_distinguished {β : Type} [Field β] (s s' v : β) (hv : v ≠ 0) (h : s ≠ s') :
+    v * s ≠ v * s' := fun e => h (mul_left_cancel₀ hv e)
+
+omit [CommSemiring α] in
+/-- R15 (`MuChannel.set_pathloss`): after an accepted call every link `(rx, tx)` carries exactly ITS
+    entry of the matrix just given (whatever it carried before, whatever the other entries are) and is
+    otherwise unchanged; the number of links and the geometry are unchanged. -/
+theorem mu_pathloss_entry_exact (c c' : Mu α) (s : List (List α)) (h : c.setPathloss s = .ok c') :
+    c'.nRx = c.nRx ∧ c'.nTx = c.nTx ∧ c'.links.length = c.links.length ∧
+    ∀ idx l, c.links[idx]? = some l →
+      ∃ row v, s[idx / c.nTx]? = some row ∧ row[idx % c.nTx]? = some v ∧
+        c'.links[idx]? = some { l with pl := some v } :=
+  mu_setPathloss_links c c' s h
+
+/-- R15 (sampling intervals at construction, `TdlChannel.__init__`): the channel is built iff ALL the
+    sampling intervals it is given — the Jakes generator's, the one of an already discretised profile,
+    the `Ts` argument — are the same value `T` (exact comparison: 1e-9 and 2e-9, or 3.25e-8 and
+    3.25e-8·(1+1e-6), do not agree), and then `T` is the interval it works with (1.0 when a Rayleigh
+    generator comes with nothing else); every refusal is a `RuntimeError`. -/
+theorem constructor_sampling_intervals_agree_exactly {τ : Type} [DecidableEq τ] (one : τ) (g p a : Option τ) :
+    (∀ T, ctorTs one g p a = .ok T ↔
+      (∀ x, g = some x → x = T) ∧ (∀ x, p = some x → x = T) ∧ (∀ x, a = some x → x = T) ∧
+      (g = none → p = none → a = none → T = one)) ∧
+    (∀ e, ctorTs one g p a = .error e → e = .RuntimeError) :=
+  ⟨ctorTs_ok_iff one g p a, ctorTs_error one g p a⟩
+
+/-- non-vacuity / the two directions on concrete values (τ = ℚ): equal intervals are accepted, intervals
+    that differ by a relative 1e-6 or that are both "tiny" are refused -/
+example : ctorTs (1 : Rat) (some (13/400000000)) none (some (13/400000000)) = .ok (13/400000000) ∧
+    ctorTs (1 : Rat) (some (13/400000000)) none (some (13000013/400000000000000)) = .error .RuntimeError ∧
+    ctorTs (1 : Rat) (some (1/1000000000)) (some (2/1000000000)) none = .error .RuntimeError ∧
+    ctorTs (1 : Rat) none none none = .ok 1 := by decide +kernel
+
+/-- R15 (discretisation, thresholds on small powers / de-duplication of close delays): every input tap
+    — however weak, however close its delay is to another tap's — is represented in the discretised
+    profile: its rounded delay is one of the output delays, and the power there is at least its own
+    share `p / total` (in particular not zero). Taps are merged only when their ROUNDED delays are
+    equal (`discretize_sorted_unique`, `discretize_merges`). -/
+theorem discretize_keeps_every_tap (delays powers : List ℚ) (Ts : ℚ) (hlen : delays.length = powers.length)
+    (hpos : ∀ p ∈ powers, 0 < p) (i : Nat) (t p : ℚ) (ht : delays[i]? = some t) (hp : powers[i]? = some p) :
+    ∃ (j : Nat) (q : ℚ), (discretize delays powers Ts).1[j]? = some (roundHalfEven (t / Ts)) ∧
+      (discretize delays powers Ts).2[j]? = some q ∧ p / powers.sum ≤ q ∧ 0 < q := by
+  have hd : roundHalfEven (t / Ts) ∈ (discretize delays powers Ts).1 :=
+    ((discretize_sorted_unique delays powers Ts).2.1 _).mpr ⟨t, List.mem_of_getElem? ht, rfl⟩
+  obtain ⟨j, hj⟩ := List.mem_iff_getElem?.mp hd
+  have hidx : (delayIdx delays Ts)[i]? = some (roundHalfEven (t / Ts)) := by simp [delayIdx, ht]
+  have hge := collidingPower_ge (delayIdx delays Ts) powers (fun x hx => le_of_lt (hpos x hx)) i _ p hidx hp
+  have hsum : 0 < powers.sum := sum_pos_of_pos powers (by intro h; simp [h] at hp) hpos
+  refine ⟨j, collidingPower (delayIdx delays Ts) powers (roundHalfEven (t / Ts)) / powers.sum, hj, ?_, ?_, ?_⟩
+  · rw [discretize_merges delays powers Ts hlen, List.getElem?_map, hj]; rfl
+  · exact div_le_div_of_nonneg_right hge (le_of_lt hsum)
+  · exact div_pos (lt_of_lt_of_le (hpos p (List.mem_of_getElem? hp)) hge) hsum
+
+/-- non-vacuity: a tap 150 dB below the main tap keeps its own delay and its own (tiny) power; the tap a
+    quarter of a sample after it is merged into it only because both ROUND to the same delay -/
+example : discretize [0, 3, 17/4] [1, 1/1000000000000000, 1/2] 1
+      = ([0, 3, 4], [1000000000000000/1500000000000001, 1/1500000000000001, 500000000000000/1500000000000001]) ∧
+    discretize [0, 3, 13/4] [1, 1/1000000000000000, 1/2] 1
+      = ([0, 3], [1000000000000000/1500000000000001, 500000000000001/1500000000000001]) := by decide +kernel
+
+/-! ## robustness: argument identity and buffer reuse (R16) -/
+
+/-- R16 (earlier results are not changed by later calls / later refills of an argument buffer): the
+    replies of a history are a prefix of the replies of every longer history, and the longer history
+    goes on from the state the shorter one ends in. -/
+theorem earlier_results_independent_of_later_calls (proc : Proc α) (fftK : Fft α) (ops more : List (SuOp α))
+    (c : Su α) :
+    (Su.runR proc fftK c (ops ++ more)).2
+      = (Su.runR proc fftK c ops).2 ++ (Su.runR proc fftK (Su.runR proc fftK c ops).1 more).2 ∧
+    (Su.runR proc fftK c (ops ++ more)).1 = (Su.runR proc fftK (Su.runR proc fftK c ops).1 more).1 := by
+  rw [su_runR_append]
+  exact ⟨rfl, rfl⟩
+
+/-- R16 (ONE preallocated array refilled in place before every call on the same object): the history
+    run with the caller's buffer cell threaded through (`Su.runBuf`) is the history in which every call
+    gets a fresh value equal to the contents at call time — whatever the buffer held before
+    (`buf`), and whatever it will hold later.  The real code is tied to this by correspondence
+    histories that really pass one refilled ndarray / list object. -/
+theorem refilled_buffer_history_eq_fresh_values (proc : Proc α) (fftK : Fft α) (ks : List (BufCall α)) (c : Su α)
+    (buf : List (List α)) :
+    Su.runBuf proc fftK c buf ks = Su.runR proc fftK c (ks.map (fun k => k.call k.fill)) :=
+  su_runBuf_eq proc fftK ks c buf
 
 /-- a two-transmission history, end to end on concrete Gaussian-free data (α = ℤ): both
     transmissions succeed and the second one starts where the first one stopped -/
